@@ -2,6 +2,7 @@ package main
 
 import (
 	"fmt"
+	"go/token"
 	"go/types"
 	"sort"
 	"strings"
@@ -57,7 +58,7 @@ func runC11(c *Ctx) {
 			if call.Call.StaticCallee() == nil {
 				return
 			}
-			switch call.Call.StaticCallee().Name() {
+			switch nm(call.Call.StaticCallee()) {
 			case "Add":
 				if k, isC := constInt(rs(call.Call.Args[1])); isC {
 					enc.attr, enc.found, enc.how = k, true, "Message.Add"
@@ -81,7 +82,7 @@ func runC11(c *Ctx) {
 			if call.Call.StaticCallee() == nil {
 				return
 			}
-			switch call.Call.StaticCallee().Name() {
+			switch nm(call.Call.StaticCallee()) {
 			case "Get":
 				if k, isC := constInt(rs(call.Call.Args[1])); isC {
 					dec.attr, dec.found, dec.how = k, true, "Message.Get"
@@ -126,7 +127,7 @@ func runC11(c *Ctx) {
 		if fnPkgPath(fn) != protoPkg.Path() {
 			continue
 		}
-		switch fn.Name() {
+		switch nm(fn) {
 		case "GetFrom", "Decode", "IsChannelData", "consumeSingleTURNFrame", "WriteHeader", "Encode", "grow", "AddTo":
 			decoders = append(decoders, fn)
 		}
@@ -155,7 +156,16 @@ func runC11(c *Ctx) {
 				}
 				// ¬(len(avail) < declared)
 				if f.Op == "<" && !f.Truth {
+					// available = len(buf[4:])  or  len(buf) - 4
+					avail := false
 					if t := termOf(f.X); t.Len {
+						avail = true
+					} else if bo, isBO := stripIntConv(f.X).(*ssa.BinOp); isBO && bo.Op == token.SUB {
+						if k, isK := constInt(bo.Y); isK && k == 4 && termOf(bo.X).Len {
+							avail = true
+						}
+					}
+					if avail {
 						if uc, _ := callOf(stripIntConv(f.Y)); uc != nil && uc.Call.StaticCallee() != nil && uc.Call.StaticCallee().Name() == "Uint16" {
 							okLen = true
 						}
@@ -181,8 +191,22 @@ func runC11(c *Ctx) {
 				return
 			}
 			if sl, isS := st.Val.(*ssa.Slice); isS && sl.High != nil && sl.Low == nil {
-				if uc, _ := callOf(stripIntConv(sl.High)); uc != nil && uc.Call.StaticCallee() != nil && uc.Call.StaticCallee().Name() == "Uint16" {
-					okTrunc = true
+				isDeclared := func(v ssa.Value) bool {
+					uc, _ := callOf(stripIntConv(v))
+					return uc != nil && uc.Call.StaticCallee() != nil && uc.Call.StaticCallee().Name() == "Uint16"
+				}
+				if isDeclared(sl.High) {
+					okTrunc = true // Data[:declared] on the declared < len(Data) edge
+				}
+				// Data[:min(declared, len(Data))]
+				if mc, isC := stripIntConv(sl.High).(*ssa.Call); isC {
+					if b, isB := mc.Call.Value.(*ssa.Builtin); isB && b.Name() == "min" && len(mc.Call.Args) == 2 {
+						for i := 0; i < 2; i++ {
+							if isDeclared(mc.Call.Args[i]) && termOf(mc.Call.Args[1-i]).Len && w.sameKey(termOf(mc.Call.Args[1-i]).V, sl.X) {
+								okTrunc = true
+							}
+						}
+					}
 				}
 			}
 		})
@@ -307,13 +331,39 @@ func runC11(c *Ctx) {
 		if fnPkgPath(fn) != protoPkg.Path() || fn.Name() != "AddTo" {
 			continue
 		}
+		// the integers an AddTo serialises: PutUintN / AppendUintN arguments and values
+		// converted to a byte that is stored into a byte slice
+		var written []struct {
+			v  ssa.Value
+			at ssa.Instruction
+		}
 		w.eachInstr(fn, func(in ssa.Instruction) {
-			call, ok := in.(*ssa.Call)
-			if !ok || call.Call.StaticCallee() == nil || !strings.HasPrefix(call.Call.StaticCallee().Name(), "PutUint") {
-				return
+			switch x := in.(type) {
+			case *ssa.Call:
+				if cal := x.Call.StaticCallee(); cal != nil && strings.Contains(cal.String(), "encoding/binary") &&
+					(strings.HasPrefix(cal.Name(), "PutUint") || strings.HasPrefix(cal.Name(), "AppendUint")) {
+					written = append(written, struct {
+						v  ssa.Value
+						at ssa.Instruction
+					}{x.Call.Args[2], in})
+				}
+			case *ssa.Store:
+				if ia, ok := x.Addr.(*ssa.IndexAddr); ok {
+					if cv, isCv := x.Val.(*ssa.Convert); isCv && typeBits(cv.Type()) == 8 && typeBits(cv.X.Type()) > 8 {
+						_ = ia
+						written = append(written, struct {
+							v  ssa.Value
+							at ssa.Instruction
+						}{cv.X, in})
+					}
+				}
 			}
+		})
+		if len(written) > 0 {
 			c.Anchor("C11.4", fname(fn))
-			v := call.Call.Args[2]
+		}
+		for _, wr := range written {
+			v, in := wr.v, wr.at
 			hasPhi := w.dependsOn(v, func(x ssa.Value) bool {
 				p, isPhi := x.(*ssa.Phi)
 				return isPhi && len(p.Edges) > 1 && p.Parent() == fn
@@ -326,6 +376,6 @@ func runC11(c *Ctx) {
 			} else {
 				c.Bad("C11.4", fname(fn), "encoded integer", w.instrPos(in), "the encoded integer does not derive from the receiver")
 			}
-		})
+		}
 	}
 }
